@@ -20,6 +20,7 @@
 import VModel.Redact
 import VModel.Event
 import VModel.Hash
+import VModel.B64
 import VGen.Consts
 namespace V
 namespace EventParse
@@ -68,7 +69,10 @@ inductive Fmt where
 
 /-- the struct a constructor function fills in, from the function's name in the version table -/
 def fmtOfName (fn : String) : Option Fmt :=
-  if fn.endsWith "V1" then some .v1 else if fn.endsWith "V2" then some .v2 else if fn.endsWith "V3" then some .v3 else none
+  if ["newEventFromUntrustedJSONV1", "newEventFromTrustedJSONV1", "newEventFromTrustedJSONWithEventIDV1"].contains fn then some .v1
+  else if ["newEventFromUntrustedJSONV2", "newEventFromTrustedJSONV2", "newEventFromTrustedJSONWithEventIDV2"].contains fn then some .v2
+  else if ["newEventFromUntrustedJSONV3", "newEventFromTrustedJSONV3", "newEventFromTrustedJSONWithEventIDV3"].contains fn then some .v3
+  else none
 
 structure Fields where
   roomID : Bytes := []
@@ -127,34 +131,27 @@ def stickyErr (vs : List JVal) : Bool :=
     | .obj m => (seqInt64 (members m b!"duration_ms")).err
     | _ => true)
 
-def hasNewline (s : Bytes) : Bool := s.any (fun c => c == 0x0A || c == 0x0D)
-
-/-- `spec.Base64Bytes.UnmarshalJSON`: `none` = not modelled (Go's decoder skips CR/LF) -/
-def b64FieldErr (v : JVal) : Option Bool :=
+/-- `spec.Base64Bytes.UnmarshalJSON` fails (`V.B64.decode` is the model of `Base64Bytes.Decode`) -/
+def b64FieldErr (v : JVal) : Bool :=
   match v with
-  | .str s => if hasNewline s then none else some (Hash.base64BytesDecode s).isNone
-  | .null => some false
-  | _ => some true
+  | .str s => (B64.decode s).isNone
+  | .null => false
+  | _ => true
 
-/-- `eventReference.UnmarshalJSON`: `some (some id)` decoded, `some none` error, `none` not modelled -/
-def decRef (v : JVal) : Option (Option Bytes) :=
+/-- `eventReference.UnmarshalJSON`: the event ID, or `none` when it returns an error -/
+def decRef (v : JVal) : Option Bytes :=
   match v with
   | .arr [a, b] =>
     let id : Option Bytes := match a with
       | .str s => some s
       | .null => some []
       | _ => none
-    let hashErr : Option Bool := match b with
-      | .null => some false
-      | .obj m => (members m b!"sha256").foldl (fun acc x => match acc, b64FieldErr x with
-          | some e, some e' => some (e || e')
-          | _, _ => none) (some false)
-      | _ => some true
-    match id, hashErr with
-    | _, none => none
-    | some i, some false => some (some i)
-    | _, _ => some none
-  | _ => some none
+    let hashErr : Bool := match b with
+      | .null => false
+      | .obj m => (members m b!"sha256").any b64FieldErr
+      | _ => true
+    if hashErr then none else id
+  | _ => none
 
 structure SliceDec where
   val : Option (List Bytes) := none
@@ -171,10 +168,7 @@ def decSlice (fmt : Fmt) (vs : List JVal) : SliceDec :=
   | [.arr xs] =>
     if fmt == .v1 then
       let ds := xs.map decRef
-      { val := some (ds.map (fun d => match d with
-          | some (some i) => i
-          | _ => [])),
-        err := ds.any (fun d => d == some none), unmodelled := ds.any (fun d => d == none) }
+      { val := some (ds.map (fun d => d.getD [])), err := ds.any (fun d => d.isNone) }
     else
       let ds := xs.map (fun x => seqString [x])
       { val := some (ds.map (·.val)), err := ds.any (·.err) }
@@ -322,8 +316,8 @@ def referenceID (H : Bytes → Bytes) (row : VGen.VersionRow) (ver : Bytes) (j :
       | some .null => .ok []
       | _ => .error errOther
     else if row.eventFormat == 2 then
-      if row.eventIDFormat == 2 then .ok (0x24 :: Hash.b64Encode false digest)
-      else if row.eventIDFormat == 3 then .ok (0x24 :: Hash.b64Encode true digest)
+      if row.eventIDFormat == 2 then .ok (0x24 :: B64.encodeWith B64.stdAlphabet digest)
+      else if row.eventIDFormat == 3 then .ok (0x24 :: B64.encodeWith B64.urlAlphabet digest)
       else .error errOther
     else .error errOther
   | .ok _ => .error errOther
@@ -419,7 +413,7 @@ def construct (fmt : Fmt) (ver : Bytes) (redacted : Bool) (text : Bytes) (j : JV
   | .obj kvs =>
     let d := decodeFields fmt kvs
     if d.err then .error errOther
-    else if d.unmodelled then .error (unmodelled "struct decoding (repeated slice member / CRLF in base64)")
+    else if d.unmodelled then .error (unmodelled "struct decoding (repeated slice member)")
     else match checkRoom fmt d.f with
       | .error x => .error x
       | .ok () => .ok { ver := ver, fmt := fmt, redacted := redacted, json := text, obj := kvs, f := d.f }
@@ -481,13 +475,76 @@ def claimedHash (kvs : Obj) : Bytes :=
 def hashedBytes (kvs : Obj) : Bytes :=
   encodeCanon (.obj (deleteKeys [b!"signatures", b!"unsigned", b!"hashes"] kvs))
 
-/-- `checkEventContentHash(json) == nil`; `none` = not modelled (CR/LF inside the base64 text) -/
-def contentHashOk (H : Bytes → Bytes) (kvs : Obj) : Option Bool :=
-  let c := claimedHash kvs
-  if hasNewline c then none else
-  match Hash.base64BytesDecode c with
-  | none => some false
-  | some d => some (d == H (hashedBytes kvs))
+/-- `checkEventContentHash(json) == nil` -/
+def contentHashOk (H : Bytes → Bytes) (kvs : Obj) : Bool :=
+  match B64.decode (claimedHash kvs) with
+  | none => false
+  | some d => d == H (hashedBytes kvs)
+
+/-- The ID of the later formats is computed, never read: a case variant of `event_id` survives the
+    stripping and is matched by the struct decoding, so the constructors reset the field. -/
+def resetID (fmt : Fmt) (e0 : PDU) : PDU :=
+  if fmt == .v1 then e0 else { e0 with f := { e0.f with eventIDRaw := [] } }
+
+/-- `populateEventID` followed by `CheckFields` -/
+def idAndChecks (H : Bytes → Bytes) (row : VGen.VersionRow) (e : PDU) : Except Err PDU :=
+  match populateEventID H row e with
+  | .error x => .error x
+  | .ok e' =>
+    match checkFields e' with
+    | .error x => .error x
+    | .ok () => .ok e'
+
+/-- The V1 constructor requires an accepted event to be redactable; the later formats redact anyway
+    to compute the event ID. -/
+def redactableV1 (fmt : Fmt) (ver : Bytes) (e : PDU) : Except Err Unit :=
+  if fmt == .v1 then
+    match redactJSON ver (.obj e.obj) with
+    | .ok _ => .ok ()
+    | .error (.other w) => if w.startsWith "unmodelled" then .error (.other w) else .error errOther
+    | .error x => .error x
+  else .ok ()
+
+/-- the keep struct re-emits a case variant of `event_id` under its proper name: the later
+    formats drop it from the redacted JSON -/
+def dropEventID (fmt : Fmt) (r0 : JVal) : JVal :=
+  if fmt == .v1 then r0 else
+  match r0 with
+  | .obj rk => .obj (deleteFirst b!"event_id" rk)
+  | v => v
+
+/-- the content hash does not match: what is returned is the redacted event -/
+def onMismatch (H : Bytes → Bytes) (row : VGen.VersionRow) (fmt : Fmt) (ver : Bytes) (text' : Bytes) (e : PDU) : Except Err PDU :=
+  match redactJSON ver (.obj e.obj) with
+  | .error (.other w) => if w.startsWith "unmodelled" then .error (.other w) else .error errOther
+  | .error x => .error x
+  | .ok r0 =>
+    let r := dropEventID fmt r0
+    if encodeCanon r != text' then
+      match trustedCore H row ver true (encodeCanon r) r with
+      | .error x => .error x
+      | .ok e' =>
+        match checkFields e' with
+        | .error x => .error x
+        | .ok () => .ok e'
+    else idAndChecks H row { e with redacted := true }
+
+/-- everything after the struct decoding and the room-ID check: `text'` is the canonical JSON of
+    the stripped event, `e` the decoded event -/
+def finishUntrusted (H : Bytes → Bytes) (row : VGen.VersionRow) (fmt : Fmt) (ver : Bytes) (text' : Bytes) (e : PDU) : Except Err PDU :=
+  -- the size limit applies to the event as received (canonical, local keys stripped)
+  if text'.length > maxEventLength then .error errTooLarge else
+  if contentHashOk H e.obj then
+    match redactableV1 fmt ver e with
+    | .error x => .error x
+    | .ok () => idAndChecks H row e
+  else onMismatch H row fmt ver text' e
+
+/-- the value after the receiver's stripping -/
+def stripped (fmt : Fmt) (j : JVal) : JVal :=
+  match j with
+  | .obj kvs => .obj (deleteKeys (stripKeys fmt) kvs)
+  | v => v
 
 /-- `newEventFromUntrustedJSONV1/V2/V3` -/
 def parseUntrusted (H : Bytes → Bytes) (ver : Bytes) (text : Bytes) : Except Err PDU :=
@@ -499,65 +556,13 @@ def parseUntrusted (H : Bytes → Bytes) (ver : Bytes) (text : Bytes) : Except E
       match parse text with
       | none => .error (.other "invalid-json")
       | some p =>
-        let j := p.toJVal
-        if hasUnderscoreKey j then .error errOther
+        if hasUnderscoreKey p.toJVal then .error errOther
         else if enf && !p.numbersOk then .error .badJSON
-        else if !j.noDupKeys then .error (unmodelled "duplicate keys (canonical order unspecified)")
+        else if !p.toJVal.noDupKeys then .error (unmodelled "duplicate keys (canonical order unspecified)")
         else
-          let j' : JVal := match j with
-            | .obj kvs => .obj (deleteKeys (stripKeys fmt) kvs)
-            | v => v
-          let text' := encodeCanon j'
-          match construct fmt ver false text' j' with
+          match construct fmt ver false (encodeCanon (stripped fmt p.toJVal)) (stripped fmt p.toJVal) with
           | .error x => .error x
-          | .ok e0 =>
-            -- the ID of the later formats is computed, never read (a case variant of `event_id`
-            -- survives the stripping and is matched by the struct decoding)
-            let e : PDU := if fmt == .v1 then e0 else { e0 with f := { e0.f with eventIDRaw := [] } }
-            -- the size limit applies to the event as received (canonical, local keys stripped)
-            if text'.length > maxEventLength then .error errTooLarge else
-            match contentHashOk H e.obj with
-            | none => .error (unmodelled "CR/LF in hashes.sha256")
-            | some true =>
-              -- the V1 constructor requires the accepted event to be redactable; the later formats
-              -- redact anyway to compute the event ID
-              let redactable : Except Err Unit :=
-                if fmt == .v1 then
-                  match redactJSON ver (.obj e.obj) with
-                  | .ok _ => .ok ()
-                  | .error (.other w) => if w.startsWith "unmodelled" then .error (.other w) else .error errOther
-                  | .error x => .error x
-                else .ok ()
-              match redactable with
-              | .error x => .error x
-              | .ok () =>
-              match populateEventID H row e with
-              | .error x => .error x
-              | .ok e' => match checkFields e' with
-                | .error x => .error x
-                | .ok () => .ok e'
-            | some false =>
-              match redactJSON ver (.obj e.obj) with
-              | .error (.other w) => if w.startsWith "unmodelled" then .error (.other w) else .error errOther
-              | .error x => .error x
-              | .ok r0 =>
-                -- the keep struct re-emits a case variant of event_id under its proper name
-                let r : JVal := if fmt == .v1 then r0 else match r0 with
-                  | .obj rk => .obj (deleteFirst b!"event_id" rk)
-                  | v => v
-                let rtext := encodeCanon r
-                if rtext != text' then
-                  match trustedCore H row ver true rtext r with
-                  | .error x => .error x
-                  | .ok e' => match checkFields e' with
-                    | .error x => .error x
-                    | .ok () => .ok e'
-                else
-                  match populateEventID H row { e with redacted := true } with
-                  | .error x => .error x
-                  | .ok e' => match checkFields e' with
-                    | .error x => .error x
-                    | .ok () => .ok e'
+          | .ok e0 => finishUntrusted H row fmt ver (encodeCanon (stripped fmt p.toJVal)) (resetID fmt e0)
     | _, _ => .error (unmodelled "constructor / canonical check function")
 
 /-! ### Headered form -/
